@@ -7,7 +7,11 @@
 //!                to_response(F) → response serialize → decode), stale, wrong cookie, wrong length,
 //!                garbage, duplicate, liar (right cookie and length, wrong bytes; such cases are flagged
 //!                dishonest and excluded from the full==F oracle clause only); full_filter; plus server-side
-//!                `to_response` / `ReferenceIdRequest::new` / `decode` on arbitrary (len, offset).
+//!                `to_response` / `ReferenceIdRequest::new` / `decode` on arbitrary (len, offset).  The server's
+//!                filter may change BETWEEN complete rounds (`server filter=`; a third of the cases are two or
+//!                three complete rounds with bits cleared / set / replaced in between); after every completed
+//!                honest round the oracle requires full_filter == the server's filter (clause full_means_equal,
+//!                attribute round=n).
 //!   c34_bloom  — `BloomFilter` set operations (add_id, contains_id, add, union, count_ones) on 4 filters.
 //!   c34_sizes  — EXHAUSTIVE: `RemoteBloomFilter::new(c)` for every u16 `c` (case i covers 64 values).
 #![allow(clippy::all, clippy::pedantic)]
@@ -48,6 +52,34 @@ fn gen_filter(rng: &mut Rng) -> Vec<u8> {
 
 // ------------------------------------------------------------------------------------ c34_remote
 
+/// the server's next filter: bits cleared (an upstream id disappeared), bits set, both, replaced, same
+fn mutate_filter(rng: &mut Rng, cur: &[u8]) -> Vec<u8> {
+    let mut f = cur.to_vec();
+    match rng.below(6) {
+        0 | 1 => {
+            for b in f.iter_mut() {
+                *b &= rng.next_u64() as u8 | rng.next_u64() as u8; // clears about a quarter of the bits
+            }
+        }
+        2 => {
+            // clear one set bit
+            let set: Vec<usize> = (0..4096).filter(|i| f[i / 8] & (1 << (i % 8)) != 0).collect();
+            if !set.is_empty() {
+                let i = *rng.pick(&set);
+                f[i / 8] &= !(1 << (i % 8));
+            }
+        }
+        3 => {
+            for b in f.iter_mut() {
+                *b |= rng.next_u64() as u8 & rng.next_u64() as u8;
+            }
+        }
+        4 => f = rng.bytes(512),
+        _ => {}
+    }
+    f
+}
+
 fn gen_remote_case(rng: &mut Rng, idx: u64, _run: &Run) -> Vec<String> {
     let chunk: u16 = if idx % 10 == 9 {
         *rng.pick(&[0u16, 1, 2, 3, 5, 6, 12, 20, 24, 48, 96, 100, 255, 257, 384, 508, 516, 1024, 65532])
@@ -59,9 +91,40 @@ fn gen_remote_case(rng: &mut Rng, idx: u64, _run: &Run) -> Vec<String> {
     // enough ops to finish at least one round for most cases; up to ~400
     let n = if rng.chance(1, 3) { rng.usize(0, 30) } else { (rounds * rng.usize(1, 3) + rng.usize(0, 10)).min(400) };
     let dishonest = rng.chance(1, 8);
+    if idx % 3 == 1 && VALID.contains(&chunk) {
+        // complete rounds with a change of the server's filter BETWEEN them (bits cleared, set, replaced)
+        let mut cur = unhex(ops[0].rsplit("filter=").next().unwrap()).unwrap();
+        let nrounds = rng.usize(2, 3);
+        for round in 0..nrounds {
+            for _ in 0..rounds {
+                ops.push("next".to_string());
+                if rng.chance(1, 6) {
+                    // answers that must not be accepted, and queries, in the middle of a round
+                    ops.push(
+                        rng.pick(&["answer kind=stale", "answer kind=wrongcookie", "answer kind=wronglen", "answer kind=garbage", "full", "srv len=8 off=16"])
+                            .to_string(),
+                    );
+                }
+                if rng.chance(1, 40) {
+                    // a change attempted DURING a round is not applied (outside the stated assumption)
+                    ops.push(format!("server filter={}", hex(&mutate_filter(rng, &cur))));
+                }
+                ops.push("answer kind=match".to_string());
+            }
+            ops.push("full".to_string());
+            if round + 1 < nrounds {
+                cur = mutate_filter(rng, &cur);
+                ops.push(format!("server filter={}", hex(&cur)));
+            }
+        }
+        return ops;
+    }
     for _ in 0..n {
         let r = rng.below(100);
-        if r < 38 {
+        if r < 2 {
+            // applied only if the client is between rounds
+            ops.push(format!("server filter={}", hex(&gen_filter(rng))));
+        } else if r < 38 {
             ops.push("next".to_string());
             // usually answered right away
             if rng.chance(3, 4) {
@@ -118,7 +181,11 @@ fn exec_remote_case(ops: &[String], run: &mut Run) {
     let mut outstanding: Option<(u16, [u8; 8])> = None;
     let mut previous: Option<(u16, [u8; 8])> = None;
     let mut accepted: usize = 0;
-    let mut honest = true;
+    // per round: were all accepted chunks the server's bytes?  and what the client must hold after the
+    // last completed round (None: unknown, a lying answer was accepted in it)
+    let mut round_honest = true;
+    let mut expected_full: Option<Vec<u8>> = None;
+    let mut rounds_done: usize = 0;
     let mut cookie_ctr: u64 = 0;
     let mut key = String::new();
     let mut rng = Rng::new(0x5eed ^ ops.len() as u64);
@@ -246,9 +313,28 @@ fn exec_remote_case(ops: &[String], run: &mut Run) {
                 if result.is_ok() {
                     let off = outstanding.map(|o| o.0 as usize).unwrap_or(0);
                     if off + chunk <= 512 && bytes[..] != f_bytes[off..off + chunk] {
-                        honest = false; // the answer accepted for this request is not the server's
+                        round_honest = false; // the answer accepted for this request is not the server's
                     }
                     accepted += 1;
+                    if r.next_to_request == 0 {
+                        // a round is complete: the client must now hold exactly the server's filter (the
+                        // server's filter is constant within a round: `server` ops apply only between rounds)
+                        rounds_done += 1;
+                        if round_honest {
+                            let got = r.full_filter().map(|f| f.as_bytes().to_vec());
+                            if got.as_deref() != Some(&f_bytes[..]) {
+                                let diff = got.as_ref().map(|g| g.iter().zip(f_bytes.iter()).filter(|(a, b)| a != b).count());
+                                run.oracle_fail(
+                                    "full_means_equal",
+                                    &format!("round={}", rounds_done),
+                                    &format!("after completed round {} (chunk {}) full_filter differs from the server's filter in {:?} bytes", rounds_done, chunk, diff),
+                                );
+                            }
+                            run.hit(if rounds_done == 1 { "round-1-complete" } else { "later-round-complete" });
+                        }
+                        expected_full = if round_honest { Some(f_bytes.clone()) } else { None };
+                        round_honest = true;
+                    }
                     previous = outstanding;
                     outstanding = None;
                     key.push('A');
@@ -271,8 +357,16 @@ fn exec_remote_case(ops: &[String], run: &mut Run) {
                 let rounds = 512 / chunk.max(1);
                 match &full {
                     Some(g) => {
-                        if honest && g[..] != f_bytes[..] {
-                            run.oracle_fail("full_means_equal", "", &format!("full filter differs from the server's after {} accepted answers (chunk {})", accepted, chunk));
+                        if r.next_to_request == 0 {
+                            if let Some(e) = &expected_full {
+                                if g[..] != e[..] {
+                                    run.oracle_fail(
+                                        "full_means_equal",
+                                        &format!("round={}", rounds_done),
+                                        &format!("full filter at a round boundary differs from the server's filter as of completed round {} (chunk {})", rounds_done, chunk),
+                                    );
+                                }
+                            }
                         }
                         if accepted < rounds {
                             run.oracle_fail("full_means_equal", "", &format!("full after only {} of {} chunks", accepted, rounds));
@@ -292,6 +386,21 @@ fn exec_remote_case(ops: &[String], run: &mut Run) {
                     Some(g) => format!("some {}", hex(&g)),
                     None => "none".to_string(),
                 });
+            }
+            Some("server") => {
+                // the server's filter changes — only BETWEEN complete rounds (never during one: that is the
+                // stated assumption of C34); otherwise the op is skipped on both sides
+                let between = remote.as_ref().map_or(true, |r| r.next_to_request == 0);
+                if between {
+                    f_bytes = unhex(kv(&w, "filter").expect("filter")).expect("hex");
+                    server = filter_from(&f_bytes);
+                    key.push('S');
+                    run.hit("server-change");
+                    run.end_op("ok");
+                } else {
+                    run.hit("server-change-skipped");
+                    run.end_op("skip");
+                }
             }
             Some("srv") => {
                 let len: usize = kv(&w, "len").and_then(|s| s.parse().ok()).expect("len");
@@ -524,7 +633,7 @@ fn entry() {
     match stream.as_str() {
         "c34_remote" => common::drive(
             "c34_remote",
-            "RemoteBloomFilter against a fixed server filter, chunk size cycling through ALL 8 valid sizes (4..512) plus invalid ones, 0-400 ops: next_request / matching (through the wire functions) / stale / wrong-cookie / wrong-length / garbage / duplicate / lying answers, full_filter, server to_response, ReferenceIdRequest::new/decode; non-trivial = at least one chunk accepted; distinct by op-outcome string",
+            "RemoteBloomFilter against a server filter that changes only BETWEEN complete rounds (a third of the cases: 2-3 complete rounds with bits cleared/set/replaced in between, full_filter checked against the server after every completed round), chunk size cycling through ALL 8 valid sizes (4..512) plus invalid ones, 0-400 ops: next_request / matching (through the wire functions) / stale / wrong-cookie / wrong-length / garbage / duplicate / lying answers, full_filter, server to_response, ReferenceIdRequest::new/decode; non-trivial = at least one chunk accepted; distinct by op-outcome string",
             gen_remote_case,
             exec_remote_case,
         ),
